@@ -140,8 +140,9 @@ def _api_job(job):
     n = len(pop)
     pid = units.labelling(n, "sparse", rnd)
     obs = []
-    for order in units.orders_for(n, rnd, 3):
-        obs.append(units.run_api(pop, list(order), pid, "2023-01-01", {h: (5 * h + 4) % 17 for h in range(12)}))
+    # the unit definitions do not depend on the policy date: the API observations rotate through early and late dates
+    for k_, order in enumerate(units.orders_for(n, rnd, 3)):
+        obs.append(units.run_api(pop, list(order), pid, ["2023-01-01", "2006-01-01", "2012-01-01"][(seed + k_) % 3], {h: (5 * h + 4) % 17 for h in range(12)}))
     return {"pop": pop, "obs": obs}
 
 
